@@ -755,6 +755,43 @@ func ruleCOD1(c *Ctx) []Ob {
 			if f.Signature.Params().Len() != 1 || f.Signature.Results().Len() != 1 {
 				continue
 			}
+			// both container types are descended into: under the ok edge of the assertion to
+			// map[string]interface{} / []interface{} there is a self-call
+			for _, ct := range c.canonTypes() {
+				if ct.Rank != 3 && ct.Rank != 4 {
+					continue
+				}
+				key := c.fname(f) + "/descends into " + ct.Name
+				var okEdges []edge
+				found := false
+				for _, b := range f.Blocks {
+					for _, in := range b.Instrs {
+						ta, isTA := in.(*ssa.TypeAssert)
+						if !isTA || !ta.CommaOk || !types.Identical(ta.AssertedType, ct.T) {
+							continue
+						}
+						found = true
+						for _, ex := range extractsOf(ta, 1) {
+							okEdges = append(okEdges, guardEdges(f, func(cond ssa.Value, branch bool) bool { return cond == ssa.Value(ex) && branch })...)
+						}
+					}
+				}
+				if !found {
+					o.add(VIOLATED, key, relPath(c, f.Pos()), "%s does not look inside %s values at all: times nested there are not transformed", c.fname(f), ct.Name)
+					continue
+				}
+				rec := false
+				allCalls(f, func(call ssa.CallInstruction) {
+					if staticCallee(call) == f && guardedBy(f, call.Block(), okEdges) {
+						rec = true
+					}
+				})
+				if rec {
+					o.add(OK, key, relPath(c, f.Pos()), "elements of %s values are transformed recursively", ct.Name)
+				} else {
+					o.add(VIOLATED, key, relPath(c, f.Pos()), "the %s branch of %s does not recurse into its elements: a time inside an object/array nested in such a value is stored with msgpack's native timestamp (zone offset lost) or read back still wrapped", ct.Name, c.fname(f))
+				}
+			}
 			allCalls(f, func(call ssa.CallInstruction) {
 				g := staticCallee(call)
 				if g == nil || !c.IsLib(g) || c.pkgRel(g) != "internal" {
